@@ -8,11 +8,14 @@ import (
 	"os"
 	"os/exec"
 	"path/filepath"
+	"runtime"
 	"runtime/debug"
 	"runtime/pprof"
 	"sort"
+	"strconv"
 	"strings"
 	"sync"
+	"sync/atomic"
 	"time"
 
 	"golang.org/x/tools/go/packages"
@@ -672,6 +675,9 @@ func cmdCheck(args []string) int {
 		outDir = filepath.Join(*out, cfg.prop)
 		_ = os.RemoveAll(outDir)
 	}
+	if cfg.prop != "" {
+		startResourceWatchdog(cfg.prop, *replayDir)
+	}
 	res, err := run(cfg)
 	if err != nil {
 		fmt.Println("ENGINE-ERROR:", err)
@@ -936,4 +942,38 @@ func cmdBaseline(args []string) int {
 	}
 	fmt.Printf("baseline: %d functions\n", len(out))
 	return 0
+}
+
+// Resource watchdog.  Changed code can make the symbolic execution of a function explode (seed C16-6: shared
+// inversion over a table of symbolic points took 60 GB).  A check that is killed by the operating system decides
+// nothing, so the engine stops itself first and reports the function it was working on as not verifiable.
+var watchedFunc atomic.Value // string: the function being verified
+
+func startResourceWatchdog(prop, replayDir string) {
+	limit := uint64(12) << 30
+	if v := os.Getenv("VCGO_MEM_LIMIT_GB"); v != "" {
+		if n, err := strconv.Atoi(v); err == nil && n > 0 {
+			limit = uint64(n) << 30
+		}
+	}
+	go func() {
+		var ms runtime.MemStats
+		for {
+			time.Sleep(500 * time.Millisecond)
+			runtime.ReadMemStats(&ms)
+			if ms.HeapAlloc < limit {
+				continue
+			}
+			fn, _ := watchedFunc.Load().(string)
+			if fn == "" {
+				fn = "engine"
+			}
+			v := &violation{Obligation: fn + "#verifiable", Kind: "engine", Statement: "every contracted function can be symbolically executed against its contract within the engine's resource limits", Status: "error",
+				Output: fmt.Sprintf("resource limit: the symbolic execution of %s needs more than %d GB of memory (path or term explosion); the function is not verified", fn, limit>>30)}
+			f := writeViolation(replayDir, prop, v)
+			fmt.Printf("  ERROR %s\n", v.Output)
+			fmt.Printf("VIOLATION property=%s replay=%s obligation=%s no-failing-input-found\n", prop, f, v.Obligation)
+			os.Exit(1)
+		}
+	}()
 }
